@@ -63,3 +63,30 @@ Print Assumptions C10_RN_Qeq.
 Print Assumptions C10_resplit_number_consistent.
 Print Assumptions C10_resplit_value.
 Print Assumptions C10_appended_zero_value.
+
+(** SOURCE TIE (tools/rs2coq): the digit-accumulation code of src/parse.rs (parse_number_fast, parse_number, into_i32) is regenerated as Gallina on every run (coq/gen/SrcParse.v) and proved EQUAL to the hand-written model functions, for arbitrary byte lists (garbage included) of fewer than 2^64 bytes, every exponent, both build modes. *)
+From ML Require Import model.SrcLib gen.Src gen.SrcBigint gen.SrcSlow gen.SrcParse proofs.SrcEqParse.
+
+Theorem C10_rs_into_i32_eq :
+  forall (b : build) (v : Z), rs_into_i32 b v = Ok (into_i32 v).
+Proof. exact rs_into_i32_eq. Qed.
+
+Theorem C10_rs_parse_number_fast_eq :
+  forall (b : build) (i fr : list Z) (e : Z),
+         zlen i + zlen fr < 2 ^ 64 -> rs_parse_number_fast b i fr e = parse_number_fast b i fr e.
+Proof. exact rs_parse_number_fast_eq. Qed.
+
+Theorem C10_rs_parse_number_eq :
+  forall (b : build) (i fr : list Z) (e : Z),
+         zlen i + zlen fr < 2 ^ 64 -> rs_parse_number b i fr e = parse_number b i fr e.
+Proof. exact rs_parse_number_eq. Qed.
+
+Theorem C10_parse_number_mant :
+  forall (b : build) (i fr : list Z) (e : Z) (n : number),
+         parse_number b i fr e = Ok n -> SrcEqBase.u64_ok (nmant n).
+Proof. exact parse_number_mant. Qed.
+
+Print Assumptions C10_rs_into_i32_eq.
+Print Assumptions C10_rs_parse_number_fast_eq.
+Print Assumptions C10_rs_parse_number_eq.
+Print Assumptions C10_parse_number_mant.
